@@ -38,17 +38,24 @@ class Val(tuple):
     sign (value) = pol * sign (root) for pol in '+', '-', or sign (|root|) for 'abs', where root names an entry quantity (immutable)"""
     __slots__ = ()
 
-    def __new__(cls, signs, tags=None, link=None, susp=frozenset()):
+    def __new__(cls, signs, tags=None, link=None, susp=frozenset(), att=None):
         if tags is None:
-            susp = frozenset()
-        return tuple.__new__(cls, (signs, tags, link, susp))
+            susp, att = frozenset(), 0
+        elif att is None:
+            att = signs
+        att &= signs
+        if att == 0:
+            tags, susp = None, frozenset()
+        return tuple.__new__(cls, (signs, tags, link, susp, att))
 
     signs = property(lambda s: s[0])
     tags = property(lambda s: s[1])
     link = property(lambda s: s[2])
-    susp = property(lambda s: s[3])      # branch blocks whose not-understood condition mentions a source of this value: exactness is
-    #                                      suspended on their arms and comes back where the arms meet again, if the value is untouched
-    exact = property(lambda s: s[1] is not None and not s[3])
+    susp = property(lambda s: s[3])      # branch blocks whose not-understood condition mentions a source of this value: what is attained
+    #                                      is suspended on their arms and comes back where the arms meet again, if the value is untouched
+    att = property(lambda s: s[4])       # the signs known to be ATTAINED for some admissible input on the path (subset of signs)
+    exact = property(lambda s: s[4] == s[0] and not s[3])
+    attained = property(lambda s: 0 if s[3] else s[4])
 
     def used(s):
         """the value as an operand: a suspended one counts as inexact in everything derived from it"""
@@ -57,6 +64,7 @@ class Val(tuple):
 
 UNK = Val(TOP, None)
 NONNEG = Val(Z | P, None)
+UNSURE = ("unsure",)      # state key: branch blocks (or "expr") whose arms are not known to be feasible on the current path
 
 
 def sneg(m):
@@ -93,36 +101,63 @@ def vjoin(a, b):
     link = a.link if a.link == b.link else None
     if link is None and a.link and b.link and a.link[0] == b.link[0] and (a.signs | b.signs) & N == 0:
         link = (a.link[0], "abs")            # n where n >= 0, -n where n < 0 (or either of them with |n|)
-    return Val(a.signs | b.signs, (a.tags | b.tags) if a.tags is not None and b.tags is not None else None, link, a.susp | b.susp)
+    tags = (a.tags or frozenset()) | (b.tags or frozenset()) if (a.att | b.att) else None
+    return Val(a.signs | b.signs, tags, link, a.susp | b.susp, a.att | b.att)
 
 
 def vneg(a):
-    return Val(sneg(a.signs), a.tags, lneg(a.link))
+    return Val(sneg(a.signs), a.tags, lneg(a.link), a.susp, sneg(a.att))
 
 
 def vabs(a):
-    return Val(sabs(a.signs), a.tags, (a.link[0], "abs") if a.link else None)
+    return Val(sabs(a.signs), a.tags, (a.link[0], "abs") if a.link else None, a.susp, sabs(a.att))
+
+
+def smul(x, y):
+    s = 0
+    for i in (N, Z, P):
+        if x & i:
+            for j in (N, Z, P):
+                if y & j:
+                    s |= Z if Z in (i, j) else (P if i == j else N)
+    return s
+
+
+def sadd_def(x, y):
+    """signs of sums that are determined by the signs of the terms"""
+    s = 0
+    for i in (N, Z, P):
+        if x & i:
+            for j in (N, Z, P):
+                if y & j:
+                    if i == Z:
+                        s |= j
+                    elif j == Z or i == j:
+                        s |= i
+    return s
+
+
+def independent(a, b):
+    return a.tags is not None and b.tags is not None and not (a.tags & b.tags)
 
 
 def vmul(a, b):
-    s = 0
-    for x in (N, Z, P):
-        if not a.signs & x:
-            continue
-        for y in (N, Z, P):
-            if not b.signs & y:
-                continue
-            s |= Z if Z in (x, y) else (P if x == y else N)
+    a, b = a.used(), b.used()
+    s = smul(a.signs, b.signs)
     if a.signs == Z or b.signs == Z:
-        return Val(Z, frozenset() if (a if a.signs == Z else b).exact else None)
-    if b.signs in (N, P) and a.exact:
-        return Val(s, a.tags, a.link if b.signs == P else lneg(a.link))
-    if a.signs in (N, P) and b.exact:
-        return Val(s, b.tags, b.link if a.signs == P else lneg(b.link))
+        z = a if a.signs == Z else b
+        return Val(Z, z.tags, None, frozenset(), z.att)
+    if b.signs in (N, P):
+        return Val(s, a.tags, a.link if b.signs == P else lneg(a.link), frozenset(), smul(a.att, b.signs))
+    if a.signs in (N, P):
+        return Val(s, b.tags, b.link if a.signs == P else lneg(b.link), frozenset(), smul(b.att, a.signs))
+    if independent(a, b):
+        return Val(s, a.tags | b.tags, None, frozenset(), smul(a.att, b.att))
     return Val(s, None)
 
 
 def vadd(a, b):
+    a, b = a.used(), b.used()
     if a.signs == Z:
         return b
     if b.signs == Z:
@@ -142,6 +177,9 @@ def vadd(a, b):
                 s |= x
             else:
                 s |= TOP
+    if independent(a, b):
+        # the terms' signs are chosen independently: a sum of two attained signs that determine the sign of the sum is attained
+        return Val(s, a.tags | b.tags, None, frozenset(), sadd_def(a.att, b.att))
     return Val(s, None)
 
 
@@ -332,10 +370,11 @@ class Fn:
             if k == "cast" and is_unsigned(e.get("t")) and v.signs & N:
                 inner = _strip(e["e"])
                 if not is_unsigned(inner.get("t") or inner.get("ct")):
-                    return Val((v.signs & ~N) | P, v.tags, None)      # a negative value converted to an unsigned type is a large positive one
+                    return Val((v.signs & ~N) | P, v.tags, None, frozenset(), (v.att & ~N) | (P if v.att & N else 0))      # a negative value converted to an unsigned type is a large positive one
             return v
         if k == "int":
-            return Val(Z if e["v"] == 0 else (P if e["v"] > 0 else N), frozenset())
+            # a constant is attained whenever its path is; on an arm whose feasibility is not known it is not known to be attained
+            return Val(Z if e["v"] == 0 else (P if e["v"] > 0 else N), None if st.get(UNSURE) else frozenset())
         a = self.atom(e)
         if a is not None:
             v = self.rd(st, a)
@@ -396,10 +435,12 @@ class Fn:
                 understood = understood and ok
                 if s2 is None:
                     continue
+                if not self.last_sure:
+                    s2[UNSURE] = frozenset(s2.get(UNSURE, ())) | {"expr"}
                 out = vjoin(out, self.eval(arm, s2))
             if out is None:
                 return UNK
-            return Val(out.signs, out.tags if understood else None, out.link)
+            return Val(out.signs, out.tags if understood else None, out.link, frozenset(), out.att)
         if k == "call":
             r = RETURNS.get(e.get("callee"))
             if r is not None:
@@ -434,11 +475,17 @@ class Fn:
         if not tags:
             return
         for k_, v in list(st.items()):
+            if k_ == UNSURE:
+                continue
             if k_ != keep and v.tags and v.tags & tags and not (root is not None and v.link and v.link[0] == root):
-                st[k_] = Val(v.signs, None, v.link) if branch is None else Val(v.signs, v.tags, v.link, v.susp | {branch})
+                st[k_] = Val(v.signs, None, v.link) if branch is None else Val(v.signs, v.tags, v.link, v.susp | {branch}, v.att)
 
     def refine(self, st, c, truth, branch=None):
-        """-> (state or None when the edge is infeasible, understood?)"""
+        """-> (state or None when the edge is infeasible, understood?); self.last_sure says whether the arm is known to be taken for some
+        admissible input: an understood test on a quantity none of whose admitted signs is known to be attained (an unsigned argument
+        that 'may be 0' only because nothing excludes it) does not make its arm feasible.  Conditions that are not understood are
+        assumed to leave both arms feasible (stated assumption), at the price of suspending what they mention."""
+        self.last_sure = True
         c = sa.strip_expect(c)
         if not isinstance(c, dict):
             return st, False
@@ -473,7 +520,7 @@ class Fn:
                     names = {p_["id"]: p_["name"] for p_ in self.params}
                     pre_ = (names.get(pl, "?"), names.get(pr, "?"))
                     for k_, v in list(st.items()):
-                        if v.tags and any(t == n_ or t.startswith(n_ + "->") for t in v.tags for n_ in pre_):
+                        if k_ != UNSURE and v.tags and any(t == n_ or t.startswith(n_ + "->") for t in v.tags for n_ in pre_):
                             st[k_] = Val(v.signs, None, v.link)
                 return st, True                                # two inputs: either way
             op = c["op"]
@@ -512,15 +559,17 @@ class Fn:
             root = v.link[0]
             rs = preimg(v.link[1], allowed)
             for k2, v2 in list(st.items()):
-                if k2 != target and v2.link and v2.link[0] == root:
+                if k2 != target and k2 != UNSURE and v2.link and v2.link[0] == root:
                     s2 = v2.signs & img(v2.link[1], rs)
                     if s2 == 0:
                         return None, True
-                    st[k2] = Val(s2, v2.tags, v2.link, v2.susp)
+                    st[k2] = Val(s2, v2.tags, v2.link, v2.susp, v2.att)
         if v.tags:
             self.blur(st, v.tags, keep=target, root=root, branch=branch)
         # a comparison with a non-zero constant cuts a sign class in two: the surviving part is still attained, exactness is kept
-        st[target] = Val(ns, v.tags, v.link, v.susp)
+        st[target] = Val(ns, v.tags, v.link, v.susp, v.att)
+        # this arm is known to be taken when one of the signs it admits is attained (or it admits everything the quantity can be)
+        self.last_sure = bool(v.attained & allowed) or ns == v.signs
         return st, True
 
     def ptr_param(self, e):
@@ -531,12 +580,14 @@ class Fn:
     # ---- statements ---------------------------------------------------------------------------------------------------------
     def havoc_objects(self, st):
         for k_ in list(st):
-            if k_[0] != "v":
+            if k_[0] != "v" and k_ != UNSURE:
                 st[k_] = UNK
 
     def set_obj(self, st, o, v):
         if o is None:
             self.havoc_objects(st)
+        elif st.get(UNSURE) and o[0] != "may":
+            st[o] = Val(v.signs, None, v.link)
         elif o[0] == "may":
             for c in o[1]:                     # one of them is written: each may now hold the new value or still its own
                 j = vjoin(st.get(c, UNK), v)
@@ -597,6 +648,8 @@ class Fn:
         l = _strip(lhs)
         if not isinstance(l, dict):
             return
+        if st.get(UNSURE):
+            v = Val(v.signs, None, v.link)
         t = self.atom(l)
         if t is not None:
             st[t] = v.used()
@@ -692,17 +745,19 @@ class Fn:
         it = 0
 
         def restore(st, at):
+            if st.get(UNSURE):
+                st[UNSURE] = frozenset(x for x in st[UNSURE] if x not in meet.get(at, set()))
             for k_, v in list(st.items()):
-                if not v.susp:
+                if k_ == UNSURE or not v.susp:
                     continue
                 left = set(v.susp)
                 ok = True
                 for B in v.susp & meet.get(at, set()):
                     left.discard(B)
                     p0 = pre.get(B, {}).get(k_, UNK)
-                    if (p0.signs, p0.tags, p0.link) != (v.signs, v.tags, v.link):
+                    if (p0.signs, p0.tags, p0.link, p0.att) != (v.signs, v.tags, v.link, v.att):
                         ok = False                      # touched on one of the arms: what is attained where they meet is not known
-                st[k_] = Val(v.signs, v.tags if ok else None, v.link, frozenset(left))
+                st[k_] = Val(v.signs, v.tags if ok else None, v.link, frozenset(left), v.att)
 
         while work:
             it += 1
@@ -732,6 +787,8 @@ class Fn:
                     s2, _ok = self.refine(s2, cond, si == 0, branch=bid)
                     if s2 is None:
                         continue
+                    if not self.last_sure:
+                        s2[UNSURE] = frozenset(s2.get(UNSURE, ())) | {bid}
                 if s == fn["exit"]:
                     line = b["elems"][-1]["line"] if b["elems"] else fn.get("endline", 0)
                     exits[(bid, si)] = (line, s2)
@@ -744,6 +801,12 @@ class Fn:
                     new = dict(old)
                     changed = False
                     for k_ in set(old) | set(s2):
+                        if k_ == UNSURE:
+                            j = frozenset(old.get(k_, ())) | frozenset(s2.get(k_, ()))
+                            if j != frozenset(old.get(k_, ())):
+                                new[k_] = j
+                                changed = True
+                            continue
                         a, b_ = old.get(k_, UNK), s2.get(k_, UNK)
                         j = vjoin(a, b_)
                         if j != a or k_ not in old:
@@ -762,7 +825,8 @@ def vjoin_entry(a, b):
     s = a.signs & b.signs
     if s == 0:
         s = a.signs | b.signs
-    return Val(s, (a.tags | b.tags) if a.exact and b.exact else (a.tags if a.exact else b.tags), a.link or b.link)
+    return Val(s, (a.tags | b.tags) if a.tags is not None and b.tags is not None else (a.tags if a.tags is not None else b.tags), a.link or b.link,
+               frozenset(), (a.att | b.att) & s)
 
 
 # ---- sign algebra of the mpz functions -------------------------------------------------------------------------------------
@@ -844,7 +908,7 @@ def is_null(a):
 
 def h_gcdext(F, st, o, a):
     """g = gcd (a, b) >= 0; the cofactors take either sign (and zero) depending on the operands - all three are attained"""
-    F.set_obj(st, o[0], NONNEG)
+    F.set_obj(st, o[0], Val(Z | P, frozenset(["the gcd computed by mpz_gcdext"])))
     for i in (1, 2):
         if not is_null(a[i]):
             F.set_obj(st, o[i], Val(TOP, frozenset(["a cofactor computed by mpz_gcdext"])))
@@ -907,13 +971,18 @@ def scenarios(F, out_id):
         yield "%s is %s" % (names[out_id], " and ".join(names[g] for g in grp)), u
 
 
-def judge(fn, out_idx, field, want, summaries, canonicalize=False, when_returns_nonzero=False):
+def judge(fn, out_idx, field, want, summaries, canonicalize=False, when_returns_nonzero=False, restrict=None):
     """-> (verdict, detail) for 'at every exit the size of <output>[.field] has a sign inside want'"""
     F = Fn(fn, summaries)
     outp = fn["params"][out_idx]
     verdict, detail = "proved", None
     for label, unify in scenarios(F, outp["id"]):
         ent = entry_model(F, den_nonzero_outputs=canonicalize)
+        for pi, mask in (restrict or {}).items():          # the documented domain of an operand
+            k_ = ("p", fn["params"][pi]["id"])
+            if k_ in ent:
+                v_ = ent[k_]
+                ent[k_] = Val(v_.signs & mask, v_.tags, v_.link, frozenset(), v_.att & mask)
         exits = F.run(ent, unify, {outp["id"]})
         if exits is None:
             verdict, detail = "undecided", detail or dict(scenario=label, why="iteration budget")
@@ -926,8 +995,12 @@ def judge(fn, out_idx, field, want, summaries, canonicalize=False, when_returns_
                 continue
             if when_returns_nonzero and F.get(st, ("ret",)).signs == Z:
                 continue                      # "no result" exit: the output is not defined there
-            if v.exact:
-                bad = v.signs & ~want
+            if when_returns_nonzero and F.get(st, ("ret",)).signs & Z:
+                verdict = "undecided"         # result and no-result paths share this exit (a flag is returned): not told apart
+                detail = detail or dict(line=line, scenario=label, signs=sname(v.signs))
+                continue
+            if v.attained & ~want and not st.get(UNSURE):
+                bad = v.attained & ~want
                 return "refuted", dict(line=line, scenario=label, signs=sname(v.signs), bad=sname(bad), sources=sorted(v.tags))
             verdict = "undecided"
             detail = detail or dict(line=line, scenario=label, signs=sname(v.signs))
@@ -1012,7 +1085,8 @@ NONNEG_RESULTS = {
             ("mpz/gcdext.c", "__gmpz_gcdext", 0, Z | P, "the greatest common divisor is non-negative"),
             ("mpz/lcm.c", "__gmpz_lcm", 0, Z | P, "the least common multiple is non-negative"),
             ("mpz/lcm_ui.c", "__gmpz_lcm_ui", 0, Z | P, "the least common multiple is non-negative"),
-            ("mpz/invert.c", "__gmpz_invert", 0, Z | P, "the inverse lies in [0, |m|) (exits that return non-zero)")],
+            ("mpz/invert.c", "__gmpz_invert", 0, Z | P, "the inverse lies in [0, |m|) (exits that return non-zero; modulus non-zero: "
+             "the property speaks of moduli of absolute value above 1)", {2: N | P})],
     "C08": [("mpz/powm.c", "__gmpz_powm", 0, Z | P, "the residue lies in [0, |mod|)"),
             ("mpz/powm_ui.c", "__gmpz_powm_ui", 0, Z | P, "the residue lies in [0, |mod|)"),
             ("mpz/ui_pow_ui.c", "__gmpz_ui_pow_ui", 0, Z | P, "a power of an unsigned base is non-negative")],
@@ -1031,13 +1105,15 @@ def run_nonneg(prop, tier="quick"):
     byname = {}
     for path, fn in ex.functions():
         byname[(relpath(path), fn["name"])] = (path, fn)
-    for rel, name, idx, want, text in NONNEG_RESULTS[prop]:
+    for row in NONNEG_RESULTS[prop]:
+        rel, name, idx, want, text = row[:5]
+        restrict = row[5] if len(row) > 5 else {}
         if (rel, name) not in byname:
             raise AnalysisBroken("R-SIGN: anchor %s in %s not found" % (name, rel))
         path, fn = byname[(rel, name)]
         if idx >= len(fn["params"]) or struct_of(fn["params"][idx].get("ct")) != "__mpz_struct" or fn["params"][idx].get("pc"):
             raise AnalysisBroken("R-SIGN: parameter %d of %s is no longer an integer result" % (idx, name))
-        verdict, detail = judge(fn, idx, None, want, {}, when_returns_nonzero="non-zero" in text)
+        verdict, detail = judge(fn, idx, None, want, {}, when_returns_nonzero="non-zero" in text, restrict=restrict)
         oname = fn["params"][idx]["name"]
         res["stats"]["obligations"] += 1
         res["stats"][verdict] += 1
